@@ -176,7 +176,7 @@ def run_merge(W, cfg):
 # ------------------------------------------------------------------ reduce
 def cfg_reduce(tier, seed):
     rng = random.Random(626 + seed)
-    top, kmax, want = (3, 3, 150) if tier == 'quick' else (3, 4, 800)
+    top, kmax, want = (3, 3, 400) if tier == 'quick' else (3, 4, 800)
     out = []
     for _ in range(want):
         k = rng.randint(2, kmax)
